@@ -10,27 +10,30 @@ void *g_led_bad_free_ptr, *g_led_bad_free_site;
 
 #include <execinfo.h>
 int g_led_deep;      /* 1: record the first frames of the allocating stack (slow; used when re-running a leaking case) */
-typedef struct { void *p; size_t size; void *site; uint64_t seq; int handed; void *bt[5]; } ent_t;
+typedef struct { void *p; size_t size; void *site; uint64_t seq; int handed; uint32_t gen; void *bt[5]; } ent_t;
+static uint32_t g_gen = 1; static uint64_t g_unhanded;
+#define EMPTY(e) (!(e).p || (e).gen != g_gen)
 static ent_t *g_tab; static size_t g_cap, g_n; static uint64_t g_seq; static int g_busy;
 #define TOMB ((void *)1)
 
 static size_t pos(const void *p, size_t cap) { return (size_t)(((uintptr_t)p >> 4) * 0x9E3779B97F4A7C15ULL >> 16) & (cap - 1); }
 static void grow(void)
 {
-	size_t ncap = g_cap ? g_cap * 2 : 1u << 14; ent_t *nt = __real_calloc(ncap, sizeof *nt);
+	size_t ncap = g_cap ? g_cap * 2 : 1u << 10; ent_t *nt = __real_calloc(ncap, sizeof *nt);
 	if (!nt) abort();
-	for (size_t i = 0; i < g_cap; i++) if (g_tab[i].p && g_tab[i].p != TOMB) {
+	for (size_t i = 0; i < g_cap; i++) if (!EMPTY(g_tab[i]) && g_tab[i].p != TOMB) {
 		size_t j = pos(g_tab[i].p, ncap); while (nt[j].p) j = (j + 1) & (ncap - 1); nt[j] = g_tab[i];
 	}
 	__real_free(g_tab); g_tab = nt; g_cap = ncap;
 	/* tombstones are dropped by the rebuild */
 	g_n = 0; for (size_t i = 0; i < g_cap; i++) if (g_tab[i].p) g_n++;
+	/* only current-generation entries were copied */
 }
 static ent_t *find(const void *p)
 {
 	if (!g_cap || !p) return NULL;
 	size_t j = pos(p, g_cap);
-	while (g_tab[j].p) { if (g_tab[j].p == p) return &g_tab[j]; j = (j + 1) & (g_cap - 1); }
+	while (!EMPTY(g_tab[j])) { if (g_tab[j].p == p) return &g_tab[j]; j = (j + 1) & (g_cap - 1); }
 	return NULL;
 }
 static void add(void *p, size_t size, void *site)
@@ -38,8 +41,9 @@ static void add(void *p, size_t size, void *site)
 	if (!p) return;
 	if ((g_n + 1) * 2 > g_cap) grow();
 	size_t j = pos(p, g_cap);
-	while (g_tab[j].p && g_tab[j].p != TOMB) j = (j + 1) & (g_cap - 1);
-	if (!g_tab[j].p) g_n++;
+	while (!EMPTY(g_tab[j]) && g_tab[j].p != TOMB) j = (j + 1) & (g_cap - 1);
+	if (EMPTY(g_tab[j])) g_n++;
+	g_tab[j].gen = g_gen; g_unhanded++;
 	g_tab[j].p = p; g_tab[j].size = size; g_tab[j].site = site; g_tab[j].seq = ++g_seq; g_tab[j].handed = 0;
 	memset(g_tab[j].bt, 0, sizeof g_tab[j].bt);
 	if (g_led_deep) { void *bt[8]; int n = backtrace(bt, 8); for (int i = 2; i < n && i < 7; i++) g_tab[j].bt[i - 2] = bt[i]; }
@@ -48,18 +52,19 @@ static void add(void *p, size_t size, void *site)
 static int del(void *p)
 {
 	ent_t *e = find(p); if (!e) return 0;
+	if (!e->handed) g_unhanded--;
 	e->p = TOMB; g_led_frees++; return 1;
 }
 
-void led_reset(void) { if (g_tab) memset(g_tab, 0, g_cap * sizeof *g_tab); g_n = 0; }
+void led_reset(void) { g_gen++; g_n = 0; g_unhanded = 0; if (g_gen == 0xFFFFFFFFu && g_tab) { memset(g_tab, 0, g_cap * sizeof *g_tab); g_gen = 1; } }
 int led_is_lib(const void *p) { return find(p) != NULL; }
 size_t led_size(const void *p) { ent_t *e = find(p); return e ? e->size : 0; }
-void led_handover(const void *p) { ent_t *e = find(p); if (e) e->handed = 1; }
-uint64_t led_live_count(void) { uint64_t n = 0; for (size_t i = 0; i < g_cap; i++) if (g_tab[i].p && g_tab[i].p != TOMB && !g_tab[i].handed) n++; return n; }
+void led_handover(const void *p) { ent_t *e = find(p); if (e && !e->handed) { e->handed = 1; g_unhanded--; } }
+uint64_t led_live_count(void) { return g_unhanded; }
 size_t led_live(led_ent_t *out, size_t max)
 {
 	size_t n = 0;
-	for (size_t i = 0; i < g_cap; i++) if (g_tab[i].p && g_tab[i].p != TOMB && !g_tab[i].handed) {
+	for (size_t i = 0; i < g_cap; i++) if (!EMPTY(g_tab[i]) && g_tab[i].p != TOMB && !g_tab[i].handed) {
 		if (n < max) { out[n].p = g_tab[i].p; out[n].size = g_tab[i].size; out[n].site = g_tab[i].site; out[n].seq = g_tab[i].seq; memcpy(out[n].bt, g_tab[i].bt, sizeof out[n].bt); }
 		n++;
 	}
